@@ -1,11 +1,13 @@
 """C04 Methods execute exactly when called by a running caller (specs/core/TxnCore.tla, TxnCoreTrace.tla, TxnCoreMC.tla)."""
 from vlib.core import core_check
 
-OPTS = [dict(), dict(p_alias=0.6, p_nonexcl=0.4), dict(p_nested=0.35), dict(sched='rr', nested=False, rdep_rel=False)]
+OPTS = [dict(), dict(p_alias=0.6, p_nonexcl=0.4), dict(p_nested=0.35), dict(sched='rr', nested=False, rdep_rel=False),
+        # constant enable_call values (elaboration-time flags: False / 0 / C(0) / True / C(1))
+        dict(p_constenable=0.4, p_enable=0.3)]
 
 
 def run(rep):
-    core_check(rep, "C04", [dict(o) for o in OPTS], 64, 1600, nontrivial_key="impl_designs_built")
+    core_check(rep, "C04", [dict(o) for o in OPTS], 80, 2000, nontrivial_key="impl_designs_built")
     rep.coverage["rule"] = ("random designs from vlib/coregen.py's grammar built with the real API, every valuation of the "
                             "control inputs (or random ones when there are many), both directions bound by TxnCoreTrace; "
                             "clauses MethodRunIffActiveSite, NestedRunsOnlyWithParent, SiteWitnessMatches; distinct_nontrivial = built designs")
